@@ -1,14 +1,17 @@
 (* C04 correspondence cases: the input together with what the implementation answered; [check]
    evaluates the model on the same input and compares.  Results of apply are compared in the
    IndexMap's iteration order (so the swap_remove model is exercised too). *)
-From FB Require Export C04.Model C04.Text C04.Hyps C04.Hyps2 Base.Run.
+From FB Require Export C04.Model C04.Text C04.Hyps C04.Hyps2 C04.Model2 Base.Run.
 
 Inductive case :=
 | COpt (d : action str) (t : option str) (r : res (option str))   (* quill::apply_diff_option *)
 | CApply (d : mdiffs) (t : mappings) (ns : str) (r : res mappings) (* MappingsDiff::apply_to *)
-| CPair (a b : mappings) (rd : res mdiffs) (ns : str) (rr : option (res mappings)) (hy : list bool)
-    (* rd = MappingsDiff::diff a b;  rr = apply_to(read_file(print(diff a b)), a, ns) when it was run;
+| CPair (a b : mappings) (rd : res mdiffs) (ns : str) (rm rr : option (res mappings)) (hy : list bool)
+    (* rd = MappingsDiff::diff a b;  rm = apply_to(diff a b, a, ns) when it was run;
+       rr = apply_to(read_file(print(diff a b)), a, ns) when it was run;
        hy = the harness' evaluation of [inverse_hyps_b; f3_class; text_hyps_b; f4_class; text_hyps_top_b] on (a, b) *)
+| CAct (a : action str) (isd isd_ref : bool) (tup : option str * option str) (fl ft : action str)
+    (* Action::is_diff, as_ref().is_diff(), to_tuple, flip, from_tuple(to_tuple) of the implementation *)
 | CRead (t : text) (r : res mdiffs)                                (* tiny_v2_diff::read_file *)
 | CPrint (d : mdiffs) (t : text).                                  (* the harness' printer = [print] *)
 
@@ -16,14 +19,30 @@ Definition check (c : case) : bool :=
   match c with
   | COpt d t r => res_eqb (opt_eqb str_eqb) (apply_option str_eqb d t) r
   | CApply d t ns r => res_eqb mappings_eqb (apply_to d t ns) r
-  | CPair a b rd ns rr hy =>
+  | CPair a b rd ns rm rr hy =>
       let d := diff a b in
       res_eqb mdiffs_eqb d rd
       && list_eqb Bool.eqb [inverse_hyps_b a b; f3_class a b; text_hyps_b a b; f4_class a b; text_hyps_top_b a b] hy
+      && match rm with
+         | None => true
+         | Some r =>
+             res_eqb mappings_eqb (do d0 <- d; apply_to d0 a ns) r
+             (* inside the hypotheses of C04_diff_apply_partial the implementation's answer must be
+                a well-formed tree equal to b up to order, judged by Quill.Mappings.equivb (C04_result_is) *)
+             && (if inverse_hyps_b a b && negb (f3_class a b) then result_is r b else true)
+         end
       && match rr with
          | None => true
-         | Some r => res_eqb mappings_eqb (do d0 <- d; do d' <- read (print d0); apply_to d' a ns) r
+         | Some r =>
+             res_eqb mappings_eqb (do d0 <- d; do d' <- read (print d0); apply_to d' a ns) r
+             (* C04_text_inverse_modulo_top: b with a's top-level comment (= b when they are equal) *)
+             && (if text_hyps_top_b a b && negb (f3_class a b) && negb (f4_class a b)
+                 then result_is r (mkMappings (ms_ns b) (ms_doc a) (ms_classes b)) else true)
          end
+  | CAct a isd isd_ref tup fl ft =>
+      Bool.eqb (is_diff str_eqb a) isd && Bool.eqb isd_ref isd
+      && pair_eqb (opt_eqb str_eqb) (opt_eqb str_eqb) (to_tuple a) tup
+      && action_eqb (flip a) fl && action_eqb (from_tuple (fst tup) (snd tup)) ft && action_eqb ft a
   | CRead t r => res_eqb mdiffs_eqb (read t) r
   | CPrint d t => str_eqb (print d) t
   end.
